@@ -4,6 +4,7 @@ HERE = os.path.dirname(os.path.abspath(__file__))
 VERIF = os.path.dirname(HERE)
 props = [json.loads(l) for l in open(os.path.join(VERIF, 'properties.jsonl'))]
 CLAIMS = {
+    'C09': 'PARTIAL -- the operator tables only: every binary operator spelling of the documented table (milu/readme.md) is listed by a precedence level of the parser and is the token that level\'s alt list (ordered choice of prefix matches, read from the MIR of op_N) picks on every input that starts with it; the levels are nested in the documented precedence order; parse2 has a constructor for every token the levels can produce. NOT decided: the rest of the grammar, whitespace/comments, and that minimally parenthesised expressions parse like fully parenthesised ones (that needs nom\'s combinators themselves)',
     'C14': 'PARTIAL -- lock-discipline kernels only: the API handlers get_alive / get_history / get_rules / post_rules never hold a registry lock (live map, history list, rule list) across any other await, and h11c_handshake (HTTP and QUIC listeners) never holds the connection\'s lock while waiting for bytes from the client; decided as trace properties (acquire / await / drop order) of each function\'s MIR. These are sufficient conditions for "one stalled client cannot make others wait through these locks"; bounded completion time, lock fairness and multi-task scheduling are NOT decided',
     'C10': 'PARTIAL -- the accept step of the reverse UDP listener only: every datagram udp_accept accepts is handed to exactly one session, the one keyed by the datagram\'s (v4-mapped) source address, including the datagram that opens the session; a new session is registered with the channel its reader listens on. NOT decided: SOCKS5 UDP associate, tproxy UDP, UDP over HTTP/QUIC hops, the reply path and its labelling, anything involving more than one task',
     'C01': 'PARTIAL -- the buffered (non-splice) relay only: one direction of copy_half, executed with its real tokio::select! lowering, writes to the destination exactly the bytes read from the source, in order, flushed, for any source of <= 6 bytes delivered in <= 2 (3) pieces and any buffer size 1..8; copy_bidi forwards and flushes the bytes the handshake\'s BufReader had already buffered on either side before it takes the buffered wrappers apart; the inline frame channel is built on the buffered stream (no read-ahead dropped). NOT decided: the splice(2) path, listener x connector pairings as such, isolation between connections, concurrency of the two directions',
@@ -42,7 +43,7 @@ for pid, txt in CLAIMS.items():
 NA = {
     'C01': 'superseded: partial check built (buffered relay + hand-over)',
     'C04': 'superseded: partial check built (buffered mode)',
-    'C09': 'parser grammar/precedence: ~25 mutually recursive nom combinator closures over &str; Kani 0.68 hits two internal compiler errors on it and the MIR engine would need nom\'s combinators as contracts, i.e. a re-specification of the grammar rather than the real code',
+    'C09': 'superseded: partial check built (operator tables)',
     'C10': 'superseded: partial check built (reverse UDP accept step)',
     'C14': 'superseded: partial check built (lock-discipline kernels)',
     'C19': 'recovery after an upstream outage: quantifies over fault sequences in time across processes; no sequential kernel decides it',
